@@ -60,7 +60,7 @@ func VP_C14_RecordBytesArgon2id() {
 	d := NewDir(base)
 	d.Params[id] = h
 	d.Default = id
-	pw := vpStr("pw", vpPwLen("pwlen"))
+	pw := vpStr("pw", vpPwLenWide("pwlen"))
 	vpNoteSecret(pw)
 	admin := vpChoose("admin", 2) == 1
 	lo := time.Now().Unix()
@@ -114,7 +114,7 @@ func VP_C14_RecordBytesScrypt() {
 	d := NewDir(base)
 	d.Params[3] = h
 	d.Default = 3
-	pw := vpStr("pw", vpPwLen("pwlen"))
+	pw := vpStr("pw", vpPwLenWide("pwlen"))
 	vpNoteSecret(pw)
 	lo := time.Now().Unix()
 	vpAssert("add-ok", d.AddUser("u", pw, false) == nil)
